@@ -8,6 +8,8 @@ prop="$1"; mk="$2"; shift 2
 wt="/tmp/wt-$prop"; src="/tmp/seed-out/$prop/$mk"
 [ -f "$src/patch.diff" ] || { echo "no patch at $src"; exit 3; }
 git -C "$wt" checkout -q -- . && git -C "$wt" clean -fdq
+# seeds are judged on top of the current /repo HEAD (which carries the fix: commits)
+git -C "$wt" checkout -q --detach "$(git -C /repo rev-parse HEAD)"
 demo=$(ls "$src"/demo.py "$src"/test_demo.py 2>/dev/null | head -1)
 rundemo() { (cd "$wt" && PYTHONPATH="$wt" timeout 300 /venv/bin/python $( [[ "$demo" == *test_demo.py ]] && echo "-m pytest -q -p no:cacheprovider" ) "$demo" >/tmp/seed-demo.log 2>&1); echo $?; }
 base=$(rundemo)
